@@ -7,7 +7,10 @@ LEVEL_TEXT = ('bounded symbolic execution (CrossHair/z3) of the real find_check_
               'and 2 outputs (unbounded), arbitrary cached and fresh find results for 1 (quick) / 2 '
               '(thorough) filters over 2 candidate paths x 4 categories, output existence symbolic: '
               'regeneration is skipped only if no input is newer and every found/extra list is '
-              'unchanged, skipped outputs are touched, fresh results are kept; FileFilter JSON round '
+              'unchanged and no directory is walked that the trigger list does not know (known finding '
+              'C08-F23), skipped outputs are touched, fresh results are kept, nothing of the old cache '
+              'reaches a forced regeneration; the saved input list equals the inputs of the regenerate '
+              'rule; FileFilter JSON round '
               'trip (equality and hash) over a generated pattern/type/extra/exclude space')
 LEVEL_NOTE = ('claimed for the decision kernel only: byte comparison with a fresh configure over edit '
               'histories, the backends\' own mtime logic and bootstrap_paths are whole-program '
